@@ -89,7 +89,7 @@ def run_models(out, tier, seed):
     sigs = sorted(t[1] for t in r.tagged("SIGNATURE"))
     out.extra["xformstmts_signatures"] = sigs
     run_stmts(out, tier, seed)
-    unexpected = [x for x in sigs if x not in ("DeclaredOnlySupplied",)]
+    unexpected = [x for x in sigs if x not in ("DeclaredOnlySupplied", "RepeatedNameFinalValue")]
     if unexpected:
         out.drift.append(f"XformStmts derives difference classes that are not recorded findings: {unexpected}")
     # the same laws on the mechanism as it was before the repairs: every repaired difference class must show up (the laws discriminate)
